@@ -13,6 +13,7 @@ import (
 	"strconv"
 	"strings"
 	"sync"
+	"syscall"
 	"testing"
 	"time"
 
@@ -212,6 +213,18 @@ func exec1[C any](r *Runner, c *C, check func(*Env, *C) error) (err error) {
 		}()
 		err = check(env, c)
 	}()
+	if fs := os.Getenv("VERIF_DISKFS"); fs != "" {
+		env.Class("fs-" + fs)
+		var he *HarnessError
+		if errors.As(err, &he) && fsLimit(he) {
+			// the case needs something this file system cannot store (an xattr
+			// larger than an ext4 inode/block allows): skipped and counted, the
+			// tmpfs shards cover it
+			env.Class("fs-" + fs + "-cannot-store-case")
+			env.nontrivial = false
+			err = nil
+		}
+	}
 	r.mu.Lock()
 	defer r.mu.Unlock()
 	r.evals++
@@ -535,4 +548,10 @@ func ScaleChecks(num, den int, f func()) {
 	flag.Set("rapid.checks", strconv.Itoa(m))
 	defer flag.Set("rapid.checks", old)
 	f()
+}
+
+// fsLimit: set-up failures that mean "this file system cannot hold the
+// generated tree" rather than a broken harness.
+func fsLimit(he *HarnessError) bool {
+	return errors.Is(he, syscall.ENOSPC) || errors.Is(he, syscall.E2BIG) || errors.Is(he, syscall.ERANGE) || errors.Is(he, syscall.EOPNOTSUPP)
 }
